@@ -28,6 +28,9 @@ type standin struct {
 }
 
 var standins = map[string][]standin{
+	"C02": {{Name: "C02DIB", Pkg: "knx/knxnet", File: "knxnet_dib_test.go", Run: "^TestKvcStandinC02DIB$",
+		Domain: "NOT exhaustive: SearchRes and DescriptionRes with friendly names of every length 0..29 in 6 fill patterns (ASCII and Latin-1), 0..20 service families, 4 field patterns (30,240 values): encode, decode, compare; decode, re-encode, decode",
+		Stands: "round trip of the search and description responses, whose friendly name passes through the charmap codec (an assumed contract without an inverse) and whose family list is bounded to 5 in the deductive Pack contract"}},
 	"C06": {{Name: "C06F16", Pkg: "knx/dpt", File: "dpt_f16_test.go", Run: "^TestKvcStandinC06F16$",
 		Domain: "all 65,536 payloads {0,b1,b2} of each of the 20 two-octet float types 9.xxx (complete for 3-byte payloads; other lengths are rejected by the C08 contracts)",
 		Stands: "round trip Unpack;Pack;Unpack of the 9.xxx types through packF16/unpackF16 (float32 multiply/round/halving loop: the per-exponent deductive slices lemmaF16rt_e* need 15+ minutes each and run in the thorough tier only)"},
